@@ -225,17 +225,21 @@ from . import lib_fakes as F      # noqa: E402
 
 
 class FakeFile:
-    """an entry delivered by Path.glob: a record (path, name, stem, suffix); nothing relates the fields (over-approximation)"""
+    """an entry delivered by Path.glob: a record (path, name, stem, suffix, regular file or not); nothing relates the fields
+    (over-approximation)"""
 
 
-FILE = V.REG.register(FakeFile, ["path", "name", "stem", "suffix"],
-                      build=lambda path="f", name="f", stem="f", suffix="": dict(path=path, name=name, stem=stem, suffix=suffix))
-FILE_SHAPE = Cls(FakeFile, path=Str, name=Str, stem=Str, suffix=Str)
+FILE = V.REG.register(FakeFile, ["path", "name", "stem", "suffix", "regular"],
+                      build=lambda path="f", name="f", stem="f", suffix="", regular=True: dict(path=path, name=name, stem=stem, suffix=suffix, regular=bool(regular)))
+FILE.methods["is_file"] = lambda I, t, a, k: SV(V.attr_of(t, FakeFile, "regular"))
+FILE.methods["is_dir"] = lambda I, t, a, k: SV(V.VBool(z3.Not(V.vb(V.attr_of(t, FakeFile, "regular")))))
+FILE_SHAPE = Cls(FakeFile, path=Str, name=Str, stem=Str, suffix=Str, regular=Bool)
 EXTENSIONS = (".graphql", ".graphqls", ".gql")
 
 
 def _is_schema_file(f):
-    return in_strs(V.attr_of(f, FakeFile, "suffix"), EXTENSIONS)
+    """statement: `a directory tree of .graphql/.graphqls/.gql files`: a regular file with one of the three extensions"""
+    return z3.And(V.vb(V.attr_of(f, FakeFile, "regular")), in_strs(V.attr_of(f, FakeFile, "suffix"), EXTENSIONS))
 
 
 WALK = SpecMap("walk_yields", lambda f: F.event_term("yield", SV(f)), keep_fn=_is_schema_file)
@@ -262,7 +266,7 @@ V.REG.register(FakeDir, [])
 class WalkGraphqlFiles(Contract):
     props = ("C19",)
     target = "ariadne_codegen.schema:walk_graphql_files"
-    trusted = ["pathlib: Path.glob('**/*') delivers every entry below the directory exactly once; `suffix` is the last extension of the entry's name"]
+    trusted = ["pathlib: Path.glob('**/*') delivers every entry below the directory exactly once (files and directories); `suffix` is the last extension of the entry's name; is_file() tells a regular file"]
     use_at_calls = False
     frame_args = False
 
@@ -272,7 +276,7 @@ class WalkGraphqlFiles(Contract):
 
     def ensures(self, A, res):
         entries = A["entries"] if "entries" in A else z3.Const("entries", V.Val)
-        return {"yields-exactly-the-entries-with-a-graphql-extension/each-once/in-glob-order":
+        return {"yields-exactly-the-files-with-a-graphql-extension/each-once/in-glob-order":
                     F.trace_term(A["__effects__"], kinds=("yield",)) == WALK(V.vl(entries))}
 
     def on_raise(self, A, exc_cls, exc):
@@ -287,7 +291,9 @@ class WalkGraphqlFiles(Contract):
                                                  dict(path="b/x.gql", name="x.gql", stem="x", suffix=".gql"),
                                                  dict(path="b/y.graphqls", name="y.graphqls", stem="y", suffix=".graphqls"),
                                                  dict(path="b/readme.txt", name="readme.txt", stem="readme", suffix=".txt"),
-                                                 dict(path="b/dir", name="dir", stem="dir", suffix="")])]
+                                                 dict(path="b/dir", name="dir", stem="dir", suffix=""),
+                                                 dict(path="b/dir.graphql", name="dir.graphql", stem="dir", suffix=".graphql", regular=False),
+                                                 dict(path="b/a.types.v2.gql", name="a.types.v2.gql", stem="a.types.v2", suffix=".gql")])]
 
 
 def replay_walk(inputs):
@@ -310,13 +316,17 @@ def replay_walk(inputs):
                 name = f"f{i}{suffix}"
             d = root / f"d{i}"
             d.mkdir()
-            (d / name).write_text("type T%d { a: Int }" % i)
-            if suffix in EXTENSIONS:
+            regular = e.get("regular", True) is not False
+            if regular:
+                (d / name).write_text("type T%d { a: Int }" % i)
+            else:
+                (d / name).mkdir()
+            if suffix in EXTENSIONS and regular:
                 expected.add(str(d / name))
         got = [str(x) for x in SCH.walk_graphql_files(root)]
         rep["outcome"] = {"return": sorted(os.path.relpath(g, root) for g in got)}
         if set(got) != expected or len(got) != len(set(got)):
-            rep["failed"].append("post.yields-exactly-the-entries-with-a-graphql-extension/each-once/in-glob-order")
+            rep["failed"].append("post.yields-exactly-the-files-with-a-graphql-extension/each-once/in-glob-order")
             rep["missing"] = sorted(os.path.relpath(x, root) for x in expected - set(got))
             rep["unexpected"] = sorted(os.path.relpath(x, root) for x in set(got) - expected)
     except Exception as e:     # noqa
